@@ -57,24 +57,16 @@ var MsgHeader = func() []byte {
 	return buf
 }()
 
-// Frame builds header + varint length + body.
-func Frame(body []byte) []byte {
-	var b bytes.Buffer
-	b.Write(MsgHeader)
-	var l [binary.MaxVarintLen64]byte
-	n := binary.PutUvarint(l[:], uint64(len(body)))
-	b.Write(l[:n])
-	b.Write(body)
-	return b.Bytes()
-}
+// Frame builds header + 4-byte big-endian length (msgio) + body.
+func Frame(body []byte) []byte { return FrameLen(uint64(len(body)), body) }
 
-// FrameLen builds header + an arbitrary declared length + body (declared may differ from len(body)).
+// FrameLen builds header + an arbitrary declared length (truncated to 32 bits) + body (declared may differ from len(body)).
 func FrameLen(declared uint64, body []byte) []byte {
 	var b bytes.Buffer
 	b.Write(MsgHeader)
-	var l [binary.MaxVarintLen64]byte
-	n := binary.PutUvarint(l[:], declared)
-	b.Write(l[:n])
+	var l [4]byte
+	binary.BigEndian.PutUint32(l[:], uint32(declared))
+	b.Write(l[:])
 	b.Write(body)
 	return b.Bytes()
 }
